@@ -398,6 +398,20 @@ def special_forms(ctx, mon, conn, tabs, cases):
             if (types.index(a) + types.index(b)) % 4 == 0:
                 stmts.append((f'SELECT c_{a} AND d_{b} AND d_{a} AS r, c_{a} OR d_{b} OR d_{a} AS q, NOT (c_{a} AND d_{b}) AS u FROM #v', None, 'logic/ternary'))
                 stmts.append((f'SELECT x FROM (SELECT c_{a} AND d_{b} AS x FROM #v) WHERE x OR NOT x OR x IS NULL', None, 'logic/nested'))
+    # constants of equal value and different type side by side (1 = 1.00 = TRUE in Python): each keeps its own type
+    from decimal import Decimal as _D
+    for text in ('SELECT 1 AS a, 1.00 AS b, TRUE AS c FROM #v', 'SELECT 1.0 AS b, 1 AS a FROM #v', 'SELECT TRUE AS c, 1 AS a, 1.0 AS b FROM #v',
+                 'SELECT 0 AS n, FALSE AS f, 0.0 AS z FROM #v', 'SELECT FALSE AS f, 0 AS n FROM #v', 'SELECT 0.00 AS z, 0 AS n, FALSE AS f FROM #v',
+                 'SELECT 2 / 2 AS q, 1 AS a, TRUE AS t FROM #v', 'SELECT 1 AS a, 2 / 2 AS q FROM #v', 'SELECT c_int AS x, 1 AS a, 1.00 AS b FROM #v',
+                 'SELECT 2 AS a, 2.00 AS b, 1 + 1 AS c, 1.0 + 1 AS e FROM #v', 'SELECT a, b, c FROM (SELECT 1 AS a, 1.0 AS b, TRUE AS c FROM #v)',
+                 'SELECT b, a FROM (SELECT 1 AS a, 1.0 AS b FROM #v) WHERE a = b', 'SELECT 1 AS a, 1.00 AS b, count(*) AS n FROM #v GROUP BY 1, 2',
+                 'SELECT 1.00 AS b, 1 AS a, TRUE AS c, count(*) AS n FROM #v', 'SELECT DISTINCT 1 AS a, 1.0 AS b FROM #v',
+                 'SELECT 1 AS a, 1.0 AS b FROM #v ORDER BY 2, 1', 'SELECT 1, 1.0, TRUE', 'SELECT 0.0, 0, FALSE'):
+        stmts.append((text, None, 'constants/equal-valued'))
+    for params in ((2, _D('2.00')), (_D('2.00'), 2), (True, 1), (1, True), (0, False, _D('0')), (_D('1'), True, 1)):
+        cols = ', '.join(f'%s AS p{i}' for i in range(len(params)))
+        stmts.append((f'SELECT {cols} FROM #v', params, 'constants/equal-valued-params'))
+        stmts.append((f'SELECT {cols}', params, 'constants/equal-valued-params'))
     stmts.append(('SELECT NULL AS r FROM #v', None, 'null'))
     stmts.append(('SELECT %s AS r FROM #v', (None,), 'param/none'))
     stmts.append(('SELECT coalesce(NULL, NULL) AS r FROM #v', None, 'coalesce/null'))
